@@ -16,6 +16,15 @@ CHECKS = {
              "concurrency enters only through the commutation theorem.",
         technique="Coq proof (refinement to residue set by induction over histories) + model/implementation differential correspondence",
         design="§7 C19"),
+    "C07": dict(
+        text="Theorems (Coq, every SIZE>=1, every CAPACITY>SIZE incl. CAPACITY=SIZE+1 and <2*SIZE, every push history): ArrayStorage, "
+             "UnsafeArrayStorage and UnsafeVectorStorage simulate the abstract window lastn N h, so filled/empty/first/last/slice/vec/arr equal the spec "
+             "after every push and the back-ends agree; UnsafeVectorStorage's copy_nonoverlapping never overlaps for multiple>=2. Safe VectorStorage: proved up to the "
+             "capacity, refuted beyond (known finding D6). Model tied to the four storages by differential runs after every push (release, unsafe release, unsafe debug builds).",
+        note=LEVEL_NOTE_COMMON + "Axioms: none. copy_within/ptr::copy modelled as list memmove; the 16-byte chunk loop of the unsafe array as one memmove "
+             "(exercised with 1/2/4/8/12/16-byte element types). VectorStorage beyond capacity is a listed known finding (test-pinned defect).",
+        technique="Coq proof (simulation relation to lastn N h, induction over push histories) + model/implementation differential correspondence",
+        design="§7 C07"),
 }
 
 ALL = [f"C{n:02d}" for n in range(1, 20)]
